@@ -179,6 +179,7 @@ fn run_c06(out: &mut Out, tier: &str, rng: &mut Rng) {
     authgen::run_c06_requests(out, tier, rng);
     authgen::run_c06_sources(out, tier, rng);
     authgen::run_c06_engine_speeds(out, tier, rng);
+    authgen::run_c06_long_silence(out, tier);
     for ms in if tier == "thorough" { vec![301u64, 1000, 3000, 6000] } else { vec![301u64, 1200] } {
         c16::concurrent_stress(out, ms);
     }
